@@ -516,7 +516,7 @@ func runOracle(cf *hxlib.CommonFlags, o *hxlib.Out) {
 	// compilation exceeds the tier's budget are dropped (counted)
 	budget := int64(500)
 	if !quick {
-		budget = 12000
+		budget = 8000
 	}
 	{
 		var keep []*Job
@@ -571,6 +571,11 @@ func runOracle(cf *hxlib.CommonFlags, o *hxlib.Out) {
 			same = append(same, r)
 			o.Count("compilations")
 			if i == 0 && r.Err != "" {
+				break
+			}
+			// every compilation re-parses and re-initialises everything
+			// (resetPackages): heavy programs are compiled twice, not k times
+			if i == 1 && same[0].Ms > 2500 {
 				break
 			}
 		}
